@@ -36,11 +36,11 @@ import (
 	fxtypes "github.com/functionx/fx-core/v8/types"
 	crosschainkeeper "github.com/functionx/fx-core/v8/x/crosschain/keeper"
 	"github.com/functionx/fx-core/v8/x/crosschain/types"
+	trontypes "github.com/functionx/fx-core/v8/x/tron/types"
 
 	"fxverif/harness/hx"
 )
 
-const chain = "eth"
 
 var baseTime = time.Unix(1_700_000_000, 0).UTC()
 
@@ -52,6 +52,11 @@ type world struct {
 	out  *hx.Out
 	rng  *rand.Rand
 	mode string // "c13" | "c07"
+	chain string // the bridged chain this world drives (all eight crosschain modules share the keeper code)
+	tron  bool   // tron-style external addresses, checkpoints and signatures
+	env   bool   // every op is followed by a real FinalizeBlock; batches come from the real pool; external events are voted in
+	user  *helpers.Signer
+	extH  uint64 // external block height reported by the next claim
 
 	oracles  []*helpers.Signer // sorted by address bytes: id = index
 	bridgers []sdk.AccAddress
@@ -89,6 +94,9 @@ type cfgT struct {
 	thr  *sdkmath.Int
 	unb  int64 // > 0: staking UnbondingTime in seconds (set through the real staking params)
 	win  uint64
+	chain string // "" = eth
+	env   bool
+	frac  *sdkmath.LegacyDec // nil = random slash fraction
 }
 
 func (w *world) ctx() sdk.Context { return w.s.Ctx }
@@ -151,6 +159,7 @@ var errTable = [][2]string{
 	{"unbonding delegation", "ubd"},
 	{"couldn't find", "no-object"},
 	{"signature verification failed", "sig"},
+	{"signature not matching", "sig"},
 	{"duplicate confirm", "dup"},
 	{"got ", "mismatch"},
 	{"max change power", "cap"},
@@ -198,7 +207,7 @@ func (w *world) vid(addr string) int {
 
 func (w *world) daddr(o int) sdk.AccAddress {
 	r := types.Oracle{OracleAddress: w.oracles[o].AccAddress().String()}
-	return r.GetDelegateAddress(chain)
+	return r.GetDelegateAddress(w.chain)
 }
 
 func joinOr(sep string, xs []string) string {
@@ -401,7 +410,13 @@ func (w *world) monitors(op, res string) {
 				staked = v.TokensFromShares(del.Shares).TruncateInt()
 			}
 			if staked.GT(o.DelegateAmount) || (!w.tainted && !staked.Equal(o.DelegateAmount)) {
-				w.violate(fmt.Sprintf("stake accounting: online oracle records delegate_amount different from what is delegated on its behalf (re-approved after governance removal=%v)", w.removed[id]))
+				if w.removed[id] {
+					// the history class of the known finding (text matched by its signature)
+					w.violate(fmt.Sprintf("stake accounting: online oracle records delegate_amount different from what is delegated on its behalf (re-approved after governance removal=%v)", w.removed[id]))
+				} else {
+					// bin/check groups descriptions with their parenthesised parts removed: keep this class textually apart
+					w.violate(fmt.Sprintf("stake accounting, oracle never removed by governance: recorded delegate_amount %s differs from the %s delegated on its behalf", o.DelegateAmount, staked))
+				}
 			}
 		}
 	}
@@ -433,7 +448,7 @@ func (w *world) monitors(op, res string) {
 			c, _ := ctx.CacheContext()
 			before := w.s.App.BankKeeper.GetBalance(c, w.oracles[id].AccAddress(), fxtypes.DefaultDenom).Amount
 			r := hx.Try(func() error {
-				_, err := w.ms.UnbondedOracle(c, &types.MsgUnbondedOracle{OracleAddress: o.OracleAddress, ChainName: chain})
+				_, err := w.ms.UnbondedOracle(c, &types.MsgUnbondedOracle{OracleAddress: o.OracleAddress, ChainName: w.chain})
 				return err
 			})
 			if r != "ok" {
@@ -485,7 +500,7 @@ func (w *world) opGov(ids []int) {
 
 func (w *world) opBond(o, b, e, v int, amt sdkmath.Int) {
 	msg := &types.MsgBondedOracle{OracleAddress: w.oracles[o].AccAddress().String(), BridgerAddress: w.bridgers[b].String(),
-		ExternalAddress: w.extAddr[e], ValidatorAddress: w.vals[v].String(), DelegateAmount: types.NewDelegateAmount(amt), ChainName: chain}
+		ExternalAddress: w.extAddr[e], ValidatorAddress: w.vals[v].String(), DelegateAmount: types.NewDelegateAmount(amt), ChainName: w.chain}
 	if msg.ValidateBasic() != nil {
 		w.out.Count("bond:vb-reject")
 		return
@@ -509,7 +524,7 @@ func (w *world) opBond(o, b, e, v int, amt sdkmath.Int) {
 }
 
 func (w *world) opAdd(o int, amt sdkmath.Int) {
-	msg := &types.MsgAddDelegate{OracleAddress: w.oracles[o].AccAddress().String(), Amount: types.NewDelegateAmount(amt), ChainName: chain}
+	msg := &types.MsgAddDelegate{OracleAddress: w.oracles[o].AccAddress().String(), Amount: types.NewDelegateAmount(amt), ChainName: w.chain}
 	if msg.ValidateBasic() != nil {
 		w.out.Count("add:vb-reject")
 		return
@@ -545,7 +560,7 @@ func (w *world) opAdd(o int, amt sdkmath.Int) {
 }
 
 func (w *world) opRedel(o, v int) {
-	msg := &types.MsgReDelegate{OracleAddress: w.oracles[o].AccAddress().String(), ValidatorAddress: w.vals[v].String(), ChainName: chain}
+	msg := &types.MsgReDelegate{OracleAddress: w.oracles[o].AccAddress().String(), ValidatorAddress: w.vals[v].String(), ChainName: w.chain}
 	res := kind(w.tx(func(ctx sdk.Context) error { _, err := w.ms.ReDelegate(ctx, msg); return err }), errTable, "staking")
 	w.out.Count("redel:" + res)
 	w.out.Nontrivial("redel:" + res)
@@ -553,7 +568,7 @@ func (w *world) opRedel(o, v int) {
 }
 
 func (w *world) opEditB(o, b int) {
-	msg := &types.MsgEditBridger{OracleAddress: w.oracles[o].AccAddress().String(), BridgerAddress: w.bridgers[b].String(), ChainName: chain}
+	msg := &types.MsgEditBridger{OracleAddress: w.oracles[o].AccAddress().String(), BridgerAddress: w.bridgers[b].String(), ChainName: w.chain}
 	res := kind(w.tx(func(ctx sdk.Context) error { _, err := w.ms.EditBridger(ctx, msg); return err }), errTable, "other")
 	w.out.Count("editb:" + res)
 	w.out.Nontrivial("editb:" + res)
@@ -561,7 +576,7 @@ func (w *world) opEditB(o, b int) {
 }
 
 func (w *world) opWithdraw(o int) {
-	msg := &types.MsgWithdrawReward{OracleAddress: w.oracles[o].AccAddress().String(), ChainName: chain}
+	msg := &types.MsgWithdrawReward{OracleAddress: w.oracles[o].AccAddress().String(), ChainName: w.chain}
 	res := kind(w.tx(func(ctx sdk.Context) error { _, err := w.ms.WithdrawReward(ctx, msg); return err }), errTable, "staking")
 	w.out.Count("withdraw:" + res)
 	w.out.Nontrivial("withdraw:" + res)
@@ -616,7 +631,7 @@ func (w *world) opUnbondNear(o int, off int64) bool {
 func (w *world) opUnbond(o int) {
 	ctx := w.ctx()
 	rec, had := w.k.GetOracle(ctx, w.oracles[o].AccAddress())
-	msg := &types.MsgUnbondedOracle{OracleAddress: w.oracles[o].AccAddress().String(), ChainName: chain}
+	msg := &types.MsgUnbondedOracle{OracleAddress: w.oracles[o].AccAddress().String(), ChainName: w.chain}
 	res := kind(w.tx(func(ctx sdk.Context) error { _, err := w.ms.UnbondedOracle(ctx, msg); return err }), errTable, "other")
 	if res == "ok" && had {
 		ubds, _ := w.s.App.StakingKeeper.GetUnbondingDelegations(w.ctx(), w.daddr(o), 10)
@@ -640,8 +655,8 @@ func (w *world) opMkBatch() {
 	ctx := w.ctx()
 	n := w.nextBt
 	batch := &types.OutgoingTxBatch{BatchNonce: n, BatchTimeout: 1 << 40, TokenContract: w.token, Block: uint64(ctx.BlockHeight()),
-		FeeReceive: common.HexToAddress("0x00000000000000000000000000000000000000f1").Hex(),
-		Transactions: []*types.OutgoingTransferTx{{Id: n, Sender: w.oracles[0].AccAddress().String(), DestAddress: common.HexToAddress("0x00000000000000000000000000000000000000d1").Hex(),
+		FeeReceive: w.ext(common.HexToAddress("0x00000000000000000000000000000000000000f1")),
+		Transactions: []*types.OutgoingTransferTx{{Id: n, Sender: w.oracles[0].AccAddress().String(), DestAddress: w.ext(common.HexToAddress("0x00000000000000000000000000000000000000d1")),
 			Token: types.NewERC20Token(sdkmath.NewInt(10), w.token), Fee: types.NewERC20Token(sdkmath.NewInt(1), w.token)}}}
 	res := kind(w.tx(func(ctx sdk.Context) error { return w.k.StoreBatch(ctx, batch) }), errTable, "other")
 	if res == "ok" {
@@ -666,6 +681,9 @@ func (w *world) sign(e int, cp []byte, good bool) string {
 		key = w.exts[(e+1)%len(w.exts)]
 	}
 	sig, err := types.NewEthereumSignature(cp, key)
+	if w.tron {
+		sig, err = trontypes.NewTronSignature(cp, key)
+	}
 	if err != nil {
 		panic(err)
 	}
@@ -681,18 +699,27 @@ func (w *world) opConf(kd string, n uint64, e, b int, good bool) {
 	case "os":
 		if x := w.k.GetOracleSet(ctx, n); x != nil {
 			cp, _ = x.GetCheckpoint(gid)
+			if w.tron {
+				cp, _ = trontypes.GetCheckpointOracleSet(x, gid)
+			}
 		}
-		msg = &types.MsgOracleSetConfirm{Nonce: n, BridgerAddress: w.bridgers[b].String(), ExternalAddress: w.extAddr[e], Signature: w.sign(e, cp, good), ChainName: chain}
+		msg = &types.MsgOracleSetConfirm{Nonce: n, BridgerAddress: w.bridgers[b].String(), ExternalAddress: w.extAddr[e], Signature: w.sign(e, cp, good), ChainName: w.chain}
 	case "batch":
 		if x := w.k.GetOutgoingTxBatch(ctx, w.token, n); x != nil {
 			cp, _ = x.GetCheckpoint(gid)
+			if w.tron {
+				cp, _ = trontypes.GetCheckpointConfirmBatch(x, gid)
+			}
 		}
-		msg = &types.MsgConfirmBatch{Nonce: n, TokenContract: w.token, BridgerAddress: w.bridgers[b].String(), ExternalAddress: w.extAddr[e], Signature: w.sign(e, cp, good), ChainName: chain}
+		msg = &types.MsgConfirmBatch{Nonce: n, TokenContract: w.token, BridgerAddress: w.bridgers[b].String(), ExternalAddress: w.extAddr[e], Signature: w.sign(e, cp, good), ChainName: w.chain}
 	case "call":
 		if x, ok := w.k.GetOutgoingBridgeCallByNonce(ctx, n); ok {
 			cp, _ = x.GetCheckpoint(gid)
+			if w.tron {
+				cp, _ = trontypes.GetCheckpointBridgeCall(x, gid)
+			}
 		}
-		msg = &types.MsgBridgeCallConfirm{Nonce: n, BridgerAddress: w.bridgers[b].String(), ExternalAddress: w.extAddr[e], Signature: w.sign(e, cp, good), ChainName: chain}
+		msg = &types.MsgBridgeCallConfirm{Nonce: n, BridgerAddress: w.bridgers[b].String(), ExternalAddress: w.extAddr[e], Signature: w.sign(e, cp, good), ChainName: w.chain}
 	}
 	res := kind(w.tx(func(ctx sdk.Context) error { return w.k.ConfirmHandler(ctx, msg) }), errTable, "other")
 	w.out.Count("conf-" + kd + ":" + res)
@@ -898,7 +925,12 @@ func (w *world) opValSlash(v int, num, den int64) {
 func newWorld(t *testing.T, out *hx.Out, rng *rand.Rand, mode string, cfg cfgT) *world {
 	nval := 2 + rng.Intn(2)
 	s := hx.NewSuite(t, nval)
-	w := &world{t: t, s: s, k: s.App.EthKeeper, out: out, rng: rng, mode: mode, nval: nval, now: baseTime, removed: map[int]bool{}, gone: map[int]*goneT{}, joined: map[int]int64{}}
+	chain := cfg.chain
+	if chain == "" {
+		chain = "eth"
+	}
+	w := &world{t: t, s: s, k: keeperOf(s, chain), chain: chain, tron: chain == trontypes.ModuleName, env: cfg.env, out: out, rng: rng, mode: mode, nval: nval, now: baseTime, removed: map[int]bool{}, gone: map[int]*goneT{}, joined: map[int]int64{}}
+	out.Count("world:chain=" + chain)
 	w.ms = crosschainkeeper.NewMsgServerImpl(w.k)
 	w.commitAt(w.now)
 	ctx := w.ctx()
@@ -962,6 +994,9 @@ func newWorld(t *testing.T, out *hx.Out, rng *rand.Rand, mode string, cfg cfgT) 
 	p.DelegateThreshold = types.NewDelegateAmount(w.thr)
 	p.DelegateMultiple = w.mult
 	p.SlashFraction = []sdkmath.LegacyDec{sdkmath.LegacyNewDecWithPrec(8, 1), sdkmath.LegacyNewDecWithPrec(5, 1), sdkmath.LegacyNewDecWithPrec(1, 3), sdkmath.LegacyZeroDec(), sdkmath.LegacyOneDec(), sdkmath.LegacyNewDecWithPrec(333333333333333333, 18)}[rng.Intn(6)]
+	if cfg.frac != nil {
+		p.SlashFraction = *cfg.frac
+	}
 	if err := w.k.SetParams(ctx, &p); err != nil {
 		t.Fatal(err)
 	}
@@ -979,11 +1014,14 @@ func newWorld(t *testing.T, out *hx.Out, rng *rand.Rand, mode string, cfg cfgT) 
 		w.bridgers = append(w.bridgers, helpers.GenAccAddress())
 		key, _ := ethcrypto.GenerateKey()
 		w.exts = append(w.exts, key)
-		w.extAddr = append(w.extAddr, ethcrypto.PubkeyToAddress(key.PublicKey).Hex())
+		w.extAddr = append(w.extAddr, types.ExternalAddrToStr(w.chain, ethcrypto.PubkeyToAddress(key.PublicKey).Bytes()))
 	}
 	w.vals = append(w.vals, s.ValAddr...)
 	w.vals = append(w.vals, sdk.ValAddress(helpers.GenAccAddress()))
-	w.token = common.HexToAddress("0x00000000000000000000000000000000000000c1").Hex()
+	w.token = w.ext(common.HexToAddress("0x00000000000000000000000000000000000000c1"))
+	if w.env {
+		w.envSetup()
+	}
 	w.nextBt = 1
 	pct := p.OracleSetUpdatePowerChangePercent.MulInt(sdkmath.NewIntWithDecimal(1, 18)).TruncateInt()
 	slashNum := p.SlashFraction.MulInt(sdkmath.NewIntWithDecimal(1, 18)).TruncateInt()
@@ -1173,6 +1211,15 @@ func (w *world) sequence(length int) {
 				}
 				sort.Ints(ids)
 				o = ids[rng.Intn(len(ids))]
+			}
+			if rng.Intn(2) == 0 { // prefer an oracle the end-blocker took offline (it has a penalty to pay)
+				for _, rec := range w.records() {
+					if !rec.Online && rec.SlashTimes > 0 && w.k.IsProposalOracle(w.ctx(), rec.OracleAddress) {
+						o = w.oid(rec.OracleAddress)
+						w.out.Count("add:target-slashed")
+						break
+					}
+				}
 			}
 			amt := w.pickAmt()
 			if rec, ok := w.k.GetOracle(w.ctx(), w.oracles[o].AccAddress()); ok && rng.Intn(3) > 0 {
@@ -1475,7 +1522,14 @@ func runAll(t *testing.T, mode string) {
 			}
 		}
 		if i < nLife && i%9 == 8 {
+			// slash → re-join: once with the tightest multiple (the re-join fits by one unit), once with room above the stake
+			// and a penalty that is a proper part of it (what the re-joining oracle pays is penalty + new stake)
 			cfg.mult = 2
+			if i >= 9 {
+				cfg.mult = 5
+				half := sdkmath.LegacyNewDecWithPrec(5, 1)
+				cfg.frac = &half
+			}
 		}
 		if i < nLife && i%9 == 7 {
 			cfg.win = 4
@@ -1483,12 +1537,27 @@ func runAll(t *testing.T, mode string) {
 				cfg.unb = 10
 			}
 		}
+		// C07: every registered chain module in turn (lifecycles and random sequences); C13: eth, every fifth world another chain
+		if mode == "c07" {
+			cfg.chain = allChains[i%len(allChains)]
+		} else if i%5 == 4 {
+			cfg.chain = allChains[(i/5)%len(allChains)]
+		}
 		w := newWorld(t, out, rng, mode, cfg)
 		if i < nLife {
 			w.lifecycle(i)
 		} else {
 			w.sequence(length)
 		}
+	}
+	if mode == "c07" {
+		// environment worlds: pool / batch / bridge-call / attestation traffic on every chain, a real block after every op
+		nenv := hx.N(len(allChains), 6*len(allChains))
+		for i := 0; i < nenv; i++ {
+			w := newWorld(t, out, rng, mode, cfgT{chain: allChains[i%len(allChains)], env: true})
+			w.envSequence(hx.N(16, 40))
+		}
+		checkAppBlockers(t, out)
 	}
 	if mode == "c07" {
 		runGov(t, out, rng) // gov half: real gov end-blocker (tally, deposits, expedited conversion) after every step
